@@ -4,3 +4,6 @@ package config
 
 // C37ExpandEnvVars exposes the unexported expandEnvVars to the /verif harness.
 func C37ExpandEnvVars(s string) string { return expandEnvVars(s) }
+
+// C37EnvVarPattern exposes the source text of the compiled pattern expandEnvVars uses.
+func C37EnvVarPattern() string { return envVarRegex.String() }
